@@ -138,19 +138,44 @@ func runCase(c *core.Ctx, r *core.Result, stream string, i int, rng *rand.Rand, 
 		dir = storelab.TempDir(c.TmpDir, "c03-")
 		defer os.RemoveAll(dir)
 	}
-	l, err := lab.New(lab.Config{Begin: cf.Begin, Initiator: cf.Initiator, Settings: st, StoreKind: cf.Store, StoreDir: dir, Tag: fmt.Sprintf("c03x%dx%d", i, rng.Intn(1<<30))})
-	if err != nil {
-		panic("harness: " + err.Error())
+	tag := fmt.Sprintf("c03x%dx%d", i, rng.Intn(1<<30))
+	if cf.Store != "memory" && rng.Intn(3) == 0 {
+		st["RefreshOnLogon"] = "Y"
 	}
-	defer l.Close()
 	refuse := map[int]bool{}
-	l.App.ToAppFn = func(m *quickfix.Message) error {
-		if pd, _ := m.Header.GetString(43); pd == "Y" {
-			if n, err := m.Header.GetInt(34); err == nil && refuse[n] {
-				return fmt.Errorf("do not resend")
+	mk := func() *lab.Lab {
+		l, err := lab.New(lab.Config{Begin: cf.Begin, Initiator: cf.Initiator, Settings: st, StoreKind: cf.Store, StoreDir: dir, Tag: tag})
+		if err != nil {
+			panic("harness: " + err.Error())
+		}
+		l.App.ToAppFn = func(m *quickfix.Message) error {
+			if pd, _ := m.Header.GetString(43); pd == "Y" {
+				if n, err := m.Header.GetInt(34); err == nil && refuse[n] {
+					return fmt.Errorf("do not resend")
+				}
+			}
+			return nil
+		}
+		return l
+	}
+	l := mk()
+	defer func() { l.Close() }()
+	origs := map[int]original{}
+	classes := map[int]string{}
+	harvest := func() {
+		for _, e := range l.Trace {
+			if e.Kind == "store" && e.StoreOp == "Reset" {
+				for k := range origs {
+					delete(origs, k)
+				}
+			}
+			if e.Kind == "store" && e.StoreOp == "SaveIncr" {
+				fs, _ := fixwire.Scan(e.Bytes, false)
+				t, _ := fs.Get(35)
+				app := !strings.Contains("0A12345", t) || len(t) != 1
+				origs[e.Arg] = original{seq: e.Arg, raw: e.Bytes, fields: fs, app: app, cls: classes[e.Arg]}
 			}
 		}
-		return nil
 	}
 	p := l.NewPeer()
 	l.Start()
@@ -159,7 +184,6 @@ func runCase(c *core.Ctx, r *core.Result, stream string, i int, rng *rand.Rand, 
 		return
 	}
 	// history
-	classes := map[int]string{}
 	n := rng.Intn(41)
 	for k := 0; k < n && l.Snap().LoggedOn; k++ {
 		switch x := rng.Intn(12); {
@@ -198,6 +222,19 @@ func runCase(c *core.Ctx, r *core.Result, stream string, i int, rng *rand.Rand, 
 			if !l.Establish(p, 30) {
 				return
 			}
+		case x == 11 && cf.Store != "memory":
+			// engine restart on the same store (new session object), then log on again
+			l.Disconnect()
+			harvest()
+			next := l.Snap().NextTarget
+			l.Close()
+			l = mk()
+			p = l.NewPeer()
+			p.NextOut = next
+			l.Start()
+			if !l.Establish(p, 30) {
+				return
+			}
 		default:
 			l.In("Heartbeat", p.Msg("0", p.NextOut, nil, nil))
 			p.NextOut++
@@ -207,18 +244,7 @@ func runCase(c *core.Ctx, r *core.Result, stream string, i int, rng *rand.Rand, 
 		return
 	}
 	// originals: what the store holds (persisted bytes), or — with persistence off — the numbers only
-	origs := map[int]original{}
-	for _, e := range l.Trace {
-		if e.Kind == "store" && e.StoreOp == "Reset" {
-			origs = map[int]original{}
-		}
-		if e.Kind == "store" && e.StoreOp == "SaveIncr" {
-			fs, _ := fixwire.Scan(e.Bytes, false)
-			t, _ := fs.Get(35)
-			app := !strings.Contains("0A12345", t) || len(t) != 1
-			origs[e.Arg] = original{seq: e.Arg, raw: e.Bytes, fields: fs, app: app, cls: classes[e.Arg]}
-		}
-	}
+	harvest()
 	last := l.Snap().NextSender - 1
 	// the request
 	b := 1 + rng.Intn(last+3)
